@@ -7,7 +7,7 @@ git -C /repo worktree add -q --detach "$W/wt" HEAD || exit 2
 trap 'git -C /repo worktree remove --force "$W/wt"; rm -rf "$W"' EXIT INT TERM
 git -C "$W/wt" apply "$V/seeded/$ID/patch.diff" || { echo "seeded-run2: patch does not apply"; exit 2; }
 for c in "$@"; do
-  out=$(VERIF_REPO="$W/wt" $V/bin/check $c --tier "${TIER:-quick}" ${SCALE:+--scale $SCALE} 2>&1); ec=$?
+  out=$(VERIF_OUT="$W/vout" VERIF_REPO="$W/wt" $V/bin/check $c --tier "${TIER:-quick}" ${SCALE:+--scale $SCALE} 2>&1); ec=$?
   echo "== $ID vs $c: exit=$ec"
   echo "$out" | grep -E "^(C[0-9]+/|VIOLATION|KNOWN|NONDET|check )" | head -6 | cut -c1-200
 done
